@@ -10,6 +10,7 @@ import (
 	sdkmath "cosmossdk.io/math"
 	sdk "github.com/cosmos/cosmos-sdk/types"
 	authtypes "github.com/cosmos/cosmos-sdk/x/auth/types"
+	sdkvesting "github.com/cosmos/cosmos-sdk/x/auth/vesting/types"
 	banktypes "github.com/cosmos/cosmos-sdk/x/bank/types"
 	govtypes "github.com/cosmos/cosmos-sdk/x/gov/types"
 	govv1 "github.com/cosmos/cosmos-sdk/x/gov/types/v1"
@@ -121,6 +122,18 @@ func c08Gen(r *rand.Rand, tier string) []Case {
 				}
 			}
 		}
+		if r.Intn(3) == 0 {
+			// the old grant's vested coins leave the account, then a partly vested grant is merged in with stake=true
+			// (the conversion delegates the vested part itself, past the staking message's own guard)
+			tot := int64(1_000_000 + r.Intn(9_000_000))
+			first := 1 + r.Int63n(tot-1)
+			ls := []period{{L: int64(200 + r.Intn(200)), A: []coin{{D: 0, V: big.NewInt(tot)}}}}
+			vs := []period{{L: int64(1 + r.Intn(8)), A: []coin{{D: 0, V: big.NewInt(first)}}}, {L: int64(100 + r.Intn(200)), A: []coin{{D: 0, V: big.NewInt(tot - first)}}}}
+			c = append(c, fmt.Sprintf("vtime # dt=%d", 40+r.Intn(60)),
+				fmt.Sprintf("vspend ? ? ? ? ? # k=%d path=send amt=S", k),
+				fmt.Sprintf("vgrant # k=%d off=%d lockup=%s vesting=%s stake=1 scale=auto", k, -10-r.Intn(10), fmtPeriods(ls), fmtPeriods(vs)),
+				fmt.Sprintf("vspend ? ? ? ? ? # k=%d path=send amt=S+1", k))
+		}
 		out = append(out, c)
 	}
 	return out
@@ -184,7 +197,26 @@ func c08Exec(c Case) (outs []string, fails []Failure, tags []string) {
 			case "vgrant":
 				out = "skip"
 				start := ctx.BlockTime().Unix() + int64(vmIdx(kv["off"]))
-				msg := vestingtypes.NewMsgConvertIntoVestingAccount(kr.GetAccAddr(0), kr.GetAccAddr(k), time.Unix(start, 0).UTC(), sdkPeriods(parsePeriods(kv["lockup"])), sdkPeriods(parsePeriods(kv["vesting"])), true, false, nil)
+				lps, vps := sdkPeriods(parsePeriods(kv["lockup"])), sdkPeriods(parsePeriods(kv["vesting"]))
+				if kv["scale"] == "auto" {
+					// the fixture's accounts accumulate grants over a run: make this grant larger than what the account was granted so far
+					if va0, ok := app.AccountKeeper.GetAccount(ctx, kr.GetAccAddr(k)).(*vestingtypes.ClawbackVestingAccount); ok {
+						fct := va0.OriginalVesting.AmountOf(denom).QuoRaw(1_000_000).AddRaw(1)
+						for _, ps := range []sdkvesting.Periods{lps, vps} {
+							for i := range ps {
+								for j := range ps[i].Amount {
+									ps[i].Amount[j].Amount = ps[i].Amount[j].Amount.Mul(fct)
+								}
+							}
+						}
+					}
+				}
+				stake := kv["stake"] == "1"
+				var valAddr sdk.ValAddress
+				if stake {
+					valAddr = nw.GetValidators()[0].GetOperator()
+				}
+				msg := vestingtypes.NewMsgConvertIntoVestingAccount(kr.GetAccAddr(0), kr.GetAccAddr(k), time.Unix(start, 0).UTC(), lps, vps, true, stake, valAddr)
 				if err := msg.ValidateBasic(); err != nil {
 					panic(err)
 				}
@@ -196,6 +228,16 @@ func c08Exec(c Case) (outs []string, fails []Failure, tags []string) {
 				}
 				write()
 				tags = append(tags, "grant-ok")
+				if stake {
+					tags = append(tags, "grant-with-stake")
+					ctx2 := nw.GetContext()
+					if va2, ok := app.AccountKeeper.GetAccount(ctx2, kr.GetAccAddr(k)).(*vestingtypes.ClawbackVestingAccount); ok {
+						post := app.BankKeeper.GetBalance(ctx2, kr.GetAccAddr(k), denom).Amount.BigInt()
+						if unv := va2.GetVestingCoins(ctx2.BlockTime()).AmountOf(denom).BigInt(); post.Cmp(unv) < 0 {
+							fl("C08:unvested-delegated:convert-with-stake", fmt.Sprintf("after a merged grant with stake=true the balance %s is below the unvested amount %s: unvested coins were delegated", post, unv))
+						}
+					}
+				}
 				// free float so that gas for the EVM paths can be paid even after boundary spends drained the account
 				_ = app.BankKeeper.SendCoins(ctx, kr.GetAccAddr(0), kr.GetAccAddr(k), sdk.NewCoins(sdk.NewCoin(denom, sdkmath.NewIntWithDecimal(1, 16))))
 			case "vclaw":
